@@ -826,8 +826,15 @@ func c03NonFinite(w *mon.W) {
 	r := w.Rng
 	sel := ref.Sel{{Kind: ref.SField, Name: "amount"}}
 	idx := 0
+	nanV := ref.Float(math.NaN())
+	type pair struct{ lit, arg ref.V }
+	pairs := []pair{{ref.Float(1000), nanV}, {ref.Float(-1000), nanV}, {ref.Float(0), nanV}, {nanV, nanV},
+		// numbers of different kinds never order and never equal, however close their values
+		{ref.Int(100), ref.Float(100.5)}, {ref.Int(100), ref.Float(99.5)}, {ref.Float(100.5), ref.Int(100)}, {ref.Float(99.5), ref.Int(100)},
+		{ref.Int(0), ref.Float(-0.5)}, {ref.Int(7), ref.Float(7)}, {ref.Float(7), ref.Int(7)}}
 	for _, kind := range []string{"<", "<=", ">", ">=", "=="} {
-		for _, lit := range []ref.V{ref.Float(1000), ref.Float(-1000), ref.Float(0), ref.Float(math.NaN())} {
+		for _, pr := range pairs {
+			lit := pr.lit
 			if lit.K == ref.KFloat && math.IsNaN(lit.F) && kind != "==" {
 				continue
 			}
@@ -851,8 +858,11 @@ func c03NonFinite(w *mon.W) {
 					k := r.IntN(n)
 					s.Links[k].Pol = ref.Policy{st}
 					s.Links[k].PolIPLD = idx%2 == 0
-					nan := ref.Map(ref.E("amount", ref.Float(math.NaN())), ref.E("unit", ref.Str("eur")), ref.E("amounts", ref.List(ref.Float(math.NaN()), ref.Float(math.NaN()))))
+					nan := ref.Map(ref.E("amount", pr.arg), ref.E("unit", ref.Str("eur")), ref.E("amounts", ref.List(pr.arg, pr.arg)))
 					fine := ref.Map(ref.E("amount", ref.Float(5)), ref.E("unit", ref.Str("eur")), ref.E("amounts", ref.List(ref.Float(5))))
+					if lit.K == ref.KInt {
+						fine = ref.Map(ref.E("amount", ref.Int(lit.I)), ref.E("unit", ref.Str("eur")), ref.E("amounts", ref.List(ref.Int(lit.I))))
+					}
 					s.Args = nan
 					if viaHook {
 						s.Args = fine
@@ -877,13 +887,13 @@ func c03NonFinite(w *mon.W) {
 					}
 					w.Eval(1)
 					w.Cover("non-finite")
-					w.Distinct("non-finite", kind, lit.String(), shape, viaHook)
+					w.Distinct("non-finite", kind, lit.String(), pr.arg.String(), shape, viaHook)
 					if e == nil {
 						d := s.Describe()
 						d["statement"] = st.String()
 						d["arguments_checked"] = nan.String()
 						d["via_hook"] = viaHook
-						w.Violate("unsound/non-finite-argument/"+kind+"/"+shape, fmt.Sprintf("ExecutionAllowed = nil although the arguments checked hold NaN where %s must hold (no ordering and no equality holds with NaN)", st), d)
+						w.Violate("unsound/non-finite-or-other-kind-argument/"+kind+"/"+shape, fmt.Sprintf("ExecutionAllowed = nil although the arguments checked hold %s where %s must hold (no ordering and no equality holds with NaN, nor between an integer and a float)", pr.arg, st), d)
 					}
 				}
 			}
